@@ -103,6 +103,20 @@ CLAIMS = {
         'note': COMMON_NOTE + ' Database::get_tree(root_hash(t)) = t (content-addressed store contract); 0-2 transactions, 2 stakes.',
         'technique': 'bounded symbolic execution of rustc MIR + z3 field-equality obligations',
     },
+    'C10': {
+        'text': 'One single-step lemma per opcode on the MIR of Executor::step (its closures, do_monop/binop/triop, '
+                'update_pc_state, the Value helpers) from a symbolic machine state (stack slots of symbolic variant with '
+                '256-bit symbolic integers, symbolic heap, symbolic pc, loop stack depth <= 2): fails exactly when the '
+                'specification says (underflow, type error, division by zero, oversize exponent / hash / message, unset '
+                'heap cell, out-of-range index, improperly nested loop) and otherwise leaves exactly the specified stack, '
+                'heap, pc and loop frames; loop bookkeeping lemma (re-enter while iterations remain, pop otherwise); '
+                'run_to_end returns the top of the stack or nothing. One known finding (SigEOk operand type error).',
+        'design_ref': 'DESIGN.md §8 C10, Appendix B',
+        'note': COMMON_NOTE + ' Sequence payload lengths enumerated (quick: 0,2; plus 31-33 / 64-65 where the opcode cares), Exp '
+                'k <= 2 (thorough 6); blake3 / Ed25519 values uninterpreted; CatVec and U256 modelled and translation-validated '
+                'against the native interpreter; whole-program behaviour follows by induction over steps.',
+        'technique': 'bounded symbolic execution of rustc MIR (single-step lemmas) + z3 bit-vector obligations against a reference table',
+    },
     'C12': {
         'text': 'Symbolic execution of the MIR of OpCode::decode (+ its closures, read_byte) and OpCode::encode: any buffer '
                 'whose front decodes to an instruction re-encodes to exactly the consumed bytes (all 49 opcodes, every '
